@@ -337,3 +337,6 @@ impl<T: Default + Copy> std::fmt::Display for LengthStats<T> {
         Ok(())
     }
 }
+
+#[cfg(abyssiniandb_verif)]
+pub use inner::verif;
